@@ -656,6 +656,18 @@ def _window(val):
         if sl and sl[0] == "slice" and len(sl[1]) == 3 and sym_of(sl[1][1]) == "None" and sym_of(sl[1][2]) == "None":
             start = F.const(0) if sym_of(sl[1][0]) == "None" else sl[1][0]
             return kind, u[1][0], start
+        if sl and sl[0] == "slice" and len(sl[1]) == 3 and sym_of(sl[1][1]) != "None" and sym_of(sl[1][2]) == "None" and not any(isinstance(q, str) for q in sl[1]):
+            # history[lo:hi]: the rows from lo on when hi is the number of rows of the history; no rows at all when hi is 0 or lo itself (decided:
+            # the window the property names is never empty); any other end is not decided here
+            lo = F.const(0) if sym_of(sl[1][0]) == "None" else sl[1][0]
+            hi = sl[1][1]
+            try:
+                if hi.equals(rows_of(u[1][0])):
+                    return kind, u[1][0], lo
+            except Unsupported:
+                pass
+            if hi.equals(F.const(0)) or hi.equals(lo):
+                return kind, u[1][0], F.fn("empty_window", lo, hi)
         return kind, None, None
     if u is None:
         # lfilter(...)[start:] + offset: the window taken before something is added (the offset is one row, or a value of the window's length); every
@@ -753,7 +765,7 @@ def _check_addback(ctx, st, site, S_, recs, where, want_func=None):
     bad, npeak = [], 0
     for val, _ix, stn in uses:
         kind, hist, _start = _window(val)
-        if hist is None:
+        if hist is None or (unfn(_start) or ("",))[0] == "empty_window":          # an empty window is R4's / C09-R5's to report; not decided here
             ctx.error(f"{st}: {site}: a use of the filter output this rule does not model", stn, repr(val)[:300])
             return
         npeak += kind == "peak"
